@@ -89,7 +89,6 @@ where
             settled: false,
         })
         .collect();
-    splits.dedup();
 
     // Number of splits that need to be settled.
     let mut todo_split_count = splits.len();
